@@ -318,6 +318,7 @@ class LineSeam:
         self.hook = None
         self.kill_at = None
         self.active = False
+        self.enabled = False
         self.max_seen = 0
 
     def _on_line(self, code, line):
@@ -336,19 +337,33 @@ class LineSeam:
             raise BudgetExceeded(f"{self.n} library line events")
         return None
 
+    def enable(self):
+        """Switch line events on for this process (expensive: re-instruments code objects); scenarios that
+        make many budgeted calls enable once in setup() and disable in teardown()."""
+        if not self.enabled:
+            self.mon.set_events(self.TOOL, self.mon.events.LINE)
+            self.enabled = True
+
+    def disable(self):
+        if self.enabled:
+            self.mon.set_events(self.TOOL, 0)
+            self.enabled = False
+
     def run(self, fn, budget=None, hook=None, kill_at=None):
         """Run fn() with library line events delivered.  Returns fn()'s value; .n holds the count."""
         self.n = 0
         self.budget = budget if budget is not None else (1 << 62)
         self.hook = hook
         self.kill_at = kill_at
+        was = self.enabled
+        self.enable()
         self.active = True
-        self.mon.set_events(self.TOOL, self.mon.events.LINE)
         try:
             return fn()
         finally:
             self.active = False
-            self.mon.set_events(self.TOOL, 0)
+            if not was:
+                self.disable()
             if self.n > self.max_seen:
                 self.max_seen = self.n
 
